@@ -385,3 +385,24 @@ PROPS["C18"] = dict(
     assumptions=["TSan cannot see races inside the uninstrumented OpenSSL/GnuTLS/jansson libraries"],
     budget_s=dict(quick=900, thorough=3300),
 )
+
+# ---------------------------------------------------------------- C20
+PROPS["C20"] = dict(
+    level="exploration",
+    technique="exhaustive process-level enumeration of token-list compositions, option spellings and the key pool through the built command-line tools",
+    level_text=("the four tools are built from /repo/tools and driven as child processes: jwt-verify with every good/bad composition of "
+                "1-6 (thorough 1-8) tokens and with 255/256/257/512 (thorough also 254, 258, 511, 513, 1024) tokens in six shapes, "
+                "as arguments and on standard input; a jwt-generate -> jwt-verify round trip for seven key files (with and without "
+                "alg attribute, oct/EC/RSA/OKP, PS256) under every combination of short and long spellings (and =value forms) of "
+                "every documented option; key2jwk -> jwk2key for every key of the pool in private and public form (leading-zero EC "
+                "keys included) and oct files of 32-512 bytes, comparing the JWK member by member with the harness's own JWK of "
+                "the same PEM (RFC 7518 fixed-width EC members) and the PEM written back with the original"),
+    level_note="exit status 0 <=> every token verified is judged against tokens whose validity is known by construction and confirmed one by one",
+    rule=("evaluations = tool invocations; cases = one composition family / one spelling combination / one key; non-trivial = cases "
+          "whose round trip completed and was compared"),
+    runs=lambda tier: [dict(harness="cli", script="harness/cli.py", tools=True)],
+    bound=dict(quick="lists 1-6 and 255/256/257/512; all spellings; all pool keys; oct 32-71 and boundary sizes", thorough="lists 1-8 and 254-258, 511-513, 1024; oct 32-512"),
+    assumptions=["stdin tokens longer than BUFSIZ and ARG_MAX-sized lists are not enumerated (DESIGN 5)"],
+    tools=True,
+    budget_s=dict(quick=900, thorough=3000),
+)
